@@ -311,7 +311,20 @@ theorem stepsOfH_class {cfg : Cfg} {thr ch : Nat} {sfx : String} {h : Hint} {old
     rename_i hact
     split at hs
     · simp at hs
-    · simp at hs
+    · -- a directory over a link: the conditional unlink at the path itself, then `create_dir_all`
+      rename_i hpay
+      simp only [List.singleton_append, List.mem_cons] at hs
+      rcases hs with rfl | hs
+      · right; refine ⟨?_, rfl, by simp [hact]⟩
+        intro x hx; simp [Step.touches] at hx; exact Or.inl hx
+      · unfold dirSteps at hs
+        split at hs
+        · simp at hs
+        · simp only [List.mem_append, List.mem_cons, List.not_mem_nil, or_false] at hs
+          rcases hs with hs | rfl
+          · obtain ⟨q, hq, rfl⟩ := mem_mkdirChain hs
+            exact Or.inl ⟨q, rfl, by simp [hact], Or.inl hq⟩
+          · exact Or.inl ⟨t.rel, rfl, by simp [hact], Or.inr ⟨rfl, hpay⟩⟩
     · rcases symlinkSteps_class hs with ⟨q, hq, rfl⟩ | h
       · exact Or.inl ⟨q, rfl, by simp [hact], Or.inl hq⟩
       · exact Or.inr ⟨fun x hx => Or.inl (h.touches hx), h.2.2, by simp [hact]⟩
@@ -338,8 +351,10 @@ theorem stepsOfH_skip {cfg : Cfg} {thr ch : Nat} {sfx : String} {h : Hint} {old 
     {t : Task} (hs : t.act = .skip) : stepsOfH cfg thr ch sfx h old t = [] := by
   unfold stepsOfH; simp [hs]
 
+/-- the step list of a directory CREATION is made of `mkdir`s only (the replacement of a link by a directory —
+    `update` with a directory payload, fix 862af11 — starts with a conditional unlink at the path) -/
 theorem stepsOfH_dir_mkdir {cfg : Cfg} {thr ch : Nat} {sfx : String} {h : Hint} {old : Option DNode}
-    {t : Task} (hd : t.payload = .dir) (hnd : t.act ≠ .delete) {s : Step}
+    {t : Task} (hd : t.payload = .dir) (hnd : t.act ≠ .delete) (hnu : t.act ≠ .update) {s : Step}
     (hs : s ∈ stepsOfH cfg thr ch sfx h old t) : s.isMkdir = true := by
   unfold stepsOfH at hs
   split at hs
@@ -355,7 +370,7 @@ theorem stepsOfH_dir_mkdir {cfg : Cfg} {thr ch : Nat} {sfx : String} {h : Hint} 
       rcases hs with hs | rfl
       · obtain ⟨q, _, rfl⟩ := mem_mkdirChain hs; rfl
       · rfl
-  · simp [hd] at hs
+  · rename_i hact; exact absurd hact hnu
 
 /-! ### hypotheses of the plan-level theorems -/
 
@@ -364,9 +379,13 @@ structure PlanOK (tasks : List Task) : Prop where
   /-- one task per relative path -/
   uniq : tasks.Pairwise (fun a b => a.rel ≠ b.rel)
   /-- a path that is written as a file or a link is not a proper prefix of another planned path
-      (in a scanned tree only directories have entries below them) -/
-  tree : ∀ t1 ∈ tasks, ∀ t2 ∈ tasks, t1.rel ≠ t2.rel → t2.payload ≠ .dir → t2.act ≠ .delete →
-    t2.act ≠ .skip → isPrefix t2.rel t1.rel = false
+      (in a scanned tree only directories have entries below them) — nor is the path of a directory
+      that REPLACES a destination link (`update` with a directory payload, fix 862af11): the engine
+      completes those replacements before any other task starts (src/sync/mod.rs, `deletions_first`
+      barrier), so a replaced link with planned entries below it is not part of the FREE
+      interleaving this structure describes -/
+  tree : ∀ t1 ∈ tasks, ∀ t2 ∈ tasks, t1.rel ≠ t2.rel → (t2.payload = .dir → t2.act = .update) →
+    t2.act ≠ .delete → t2.act ≠ .skip → isPrefix t2.rel t1.rel = false
   /-- delete tasks target paths that are not above (or equal to) any path written in this run
       (`plan_deletions` only lists entries absent from the scan, and the scan contains the
       parents of everything it contains) -/
@@ -434,9 +453,11 @@ theorem tasks_indep {cfg : Cfg} {thr ch : Nat} {sfx : String} {tasks : List Task
     · by_cases hbd : b.act = .delete
       · have := hok.delClear b hb hbd a ha had has
         rw [← h, hq] at this; cases this
-      · have hbp : b.payload ≠ .dir := by
+      · have hbp : b.payload = .dir → b.act = .update := by
           intro hp
-          have := stepsOfH_dir_mkdir hp hbd hs
+          apply Classical.byContradiction
+          intro hnu
+          have := stepsOfH_dir_mkdir hp hbd hnu hs
           rw [hnm] at this; cases this
         have := hok.tree a ha b hb hab hbp hbd hbs
         rw [← h, hq] at this; cases this
